@@ -843,7 +843,7 @@ def g_config(rng, variant=0):
     return c
 
 
-@gen('exportable_plain', variants=2)
+@gen('exportable_plain', variants=3)
 def g_exportable(rng, variant=0):
     from tenpy.tools.hdf5_io import Hdf5Exportable
     e = Hdf5Exportable()
@@ -853,6 +853,10 @@ def g_exportable(rng, variant=0):
         e.me = e            # self reference through the instance
         e.other = Hdf5Exportable()
         e.other.back = e
+    if variant == 2:       # attribute names that are no valid HDF5 path components: __dict__ is stored in the general dictionary format
+        e.__dict__['a/b'] = [1, 2]
+        e.__dict__['.'] = e
+        e.plain = (e.__dict__['a/b'], 'x')
     return e
 
 
